@@ -3,7 +3,7 @@
    INPUT is either a universe header
        U <uid> <shape>@<code>@<dstr-hex>@<djson-hex> ...
    (shape: I<z> C<z> Y<symnum> S<hex bytes> A(<shape>,<shape>..); code = the REAL hash code
-    of that key; dstr/djson = how the key is spelled inside (str h) / (json h)), which selects
+    of that key; dstr/djson = how the key is spelled inside (str h) / as a quoted object key of (json h)), which selects
    the current universe, or a history
        <mode> <uid> s<i>=<v> d<i> ...        mode A (builtins applied) | S (script)
    over key indices of the current universe.  The observation printed is the one made
@@ -90,8 +90,8 @@ let render_json = function
   | Crash -> "#" | Err -> "!"
   | Ok (es, ko) ->
     if ko = [] then "{\"Atype\":\"hash\"}" else begin
-      let s = "{\"Atype\":\"hash\", " ^ String.concat "" (List.map (fun (k, v) -> "\"" ^ djson k ^ "\":" ^ string_of_z v ^ ", ") es) in
-      let s = s ^ "\"zKeyOrder\":[" ^ String.concat "" (List.map (fun k -> "\"" ^ djson k ^ "\", ") ko) in
+      let s = "{\"Atype\":\"hash\", " ^ String.concat "" (List.map (fun (k, v) -> djson k ^ ":" ^ string_of_z v ^ ", ") es) in
+      let s = s ^ "\"zKeyOrder\":[" ^ String.concat "" (List.map (fun k -> djson k ^ ", ") ko) in
       String.sub s 0 (String.length s - 2) ^ "]}"
     end
 
